@@ -137,7 +137,15 @@ def execute(machine_cls, seed, knobs, ops, max_ops=None, realfs_root=None):
         # machines must catch these themselves; reaching here is a harness bug
         rec.update(outcome='harness', msg='uncaught ' + _short_tb(e), op_index=i)
     except Exception as e:
-        rec.update(outcome='harness', msg='machine raised ' + _short_tb(e), op_index=i)
+        tb = traceback.extract_tb(e.__traceback__)
+        repo = os.path.realpath(os.environ.get('VERIF_REPO', '/repo')) + os.sep
+        if tb and os.path.realpath(tb[-1].filename).startswith(repo):
+            # raised inside the library, in a call the machine did not expect to fail (it wraps
+            # the calls it knows may be refused): the operation failed, not the harness
+            rec.update(outcome='violation', check='EXC', key='-', op_index=i,
+                       msg='the library raised %s' % _short_tb(e))
+        else:
+            rec.update(outcome='harness', msg='machine raised ' + _short_tb(e), op_index=i)
     finally:
         SEAMS.fs = None
     ctx.digest.add('end', rec['outcome'], rec['check'])
